@@ -157,17 +157,32 @@ class HPath(Path):
         return HPath(s.env, s.pc, s.heap, s.known)
 
 
+def _guard(fn):
+    """a sidecar callback written against the locals / value kinds of the source it was written for: when the source under check no longer has them (a local was
+    removed, a list became a number) the sidecar does not apply - that is `outside the verified subset` (undecided), never a crash of the checker"""
+    if fn is None or getattr(fn, "_guarded", False):
+        return fn
+
+    def wrapped(*a, **k):
+        try:
+            return fn(*a, **k)
+        except (KeyError, AttributeError, TypeError, IndexError) as ex:
+            raise Unsupported(f"the sidecar invariant does not apply to this source ({type(ex).__name__}: {ex})")
+    wrapped._guarded = True
+    return wrapped
+
+
 class LoopSpec:
     def __init__(s, inv, elem=None, facts=None, havoc_heap=None, name=None, modifies=None, ghost=None, inst=None, cases=None):
         s.cases = cases              # state machines: [{local: concrete value}] - the loop head and exit are split into one path per case, so that
                                      # the control variable stays a concrete Python value (bit tests evaluate) and the invariant is a map case -> predicate
-        s.inst = inst                # (ex, path, k, seq) -> [z3 Bool]: further instances of a universally quantified invariant (whose goal
+        s.inst = _guard(inst)        # (ex, path, k, seq) -> [z3 Bool]: further instances of a universally quantified invariant (whose goal
                                      # is proved for a skolem index); used ONLY where the invariant is assumed (loop head, loop exit)
-        s.ghost = ghost              # (ex, path, k, seq) -> [z3 Bool]: ghost assignments at the end of iteration k (definitions of
+        s.ghost = _guard(ghost)      # (ex, path, k, seq) -> [z3 Bool]: ghost assignments at the end of iteration k (definitions of
                                      # history functions at index k / k+1 only; the invariant at k may mention them below that only)
         s.modifies = modifies        # heap field keys the loop may change; every other havocked field is framed automatically
-        s.inv = inv                  # (ex, path, k, seq) -> z3 Bool ; k = number of completed iterations
-        s.facts = facts              # (ex, path, k, seq) -> [z3 Bool] ground facts (wf of element k, ghost unfoldings)
+        s.inv = _guard(inv)          # (ex, path, k, seq) -> z3 Bool ; k = number of completed iterations
+        s.facts = _guard(facts)      # (ex, path, k, seq) -> [z3 Bool] ground facts (wf of element k, ghost unfoldings)
         s.havoc_heap = havoc_heap    # extra heap fields to havoc (those written by callees' contracts)
         s.name = name
 
